@@ -1192,8 +1192,9 @@ class Standard(Output):
 
             std = verif.util.nanstd(y)
             minDiff = std / 50
-            Ieven = np.where(np.abs(y[:, 0] - y[:, 1]) < minDiff)[0]
-            R[Ieven, :] = -1
+            if F >= 2:
+                Ieven = np.where(np.abs(y[:, 0] - y[:, 1]) < minDiff)[0]
+                R[Ieven, :] = -1
             yy = np.zeros([F + 1, F])  # Rank, F
             for j in range(F):
                 for i in range(F):
